@@ -244,6 +244,12 @@ class Mix(Scenario):
         if it.pub in ('rx3', 'rx4', 'rx3bp', 'rx4bp', 'rx3bpq', 'rx4bpq'):
             return self._rx_publisher(w, it, side, role, count)
 
+        if it.pub in ('subcomplete', 'suberror'):
+            from mc.app import EagerTerminalPublisher
+            pub = EagerTerminalPublisher(w, side, 'pub' + it.tag + role, error=(it.pub == 'suberror'))
+            st['pub' + role] = pub
+            return pub
+
         if it.pub == 'sync':
             from mc.app import SyncPublisher
             pub = SyncPublisher(w, side, 'pub' + it.tag + role, [it.pay(role, i) for i in range(count)], flag=(ending == 'flag'))
